@@ -18,7 +18,7 @@ import re
 from vf import astn, fm
 from vf.core import Collector, Prop, shard_rng
 from vf.gen_doc import gen_doc
-from vf.gen_para import plain_word
+from vf.gen_para import long_atom, plain_word
 
 _WS = re.compile(r"\s+")
 
@@ -39,7 +39,7 @@ ATOMS = {
 }
 SENTENCE_INSIDE = ["[with text inside. Another sentence](http://x.y)", "`end. Next`", "[dots. End](http://x.y/z)",
                    "{% tag note=\"ends here. Next\" %}"]
-GLUE_L = ["(", "\"", "see:", "x="]
+GLUE_L = ["(", "\"", "see:", "x=", "dir\\", "C:\\Users\\", "a\\\\"]  # (a backslash before a construct does not make it prose)
 GLUE_R = [")", ",", ".", "\"", ";", "'s"]
 CONTAINERS = [("", ""), ("- ", "  "), ("1. ", "   "), ("> ", "> "), ("> - ", ">   "), ("- > ", "  > ")]
 
@@ -132,7 +132,11 @@ class C06(Prop):
             units, gaps, meta = [], [], []
             for j in range(k):
                 x = r.random()
-                if x < 0.45:
+                if i % 9 == 4 and j == k // 2:
+                    # a construct of several hundred to several thousand characters (a length bound a pattern might have)
+                    u = long_atom(r)
+                    meta.append("long-atom")
+                elif x < 0.45:
                     kind = r.choice(kinds)
                     u = r.choice(ATOMS[kind])
                     meta.append(kind)
